@@ -1,8 +1,6 @@
 package txsort
 
 import (
-	"fmt"
-
 	"github.com/gcash/bchd/wire"
 )
 
@@ -10,7 +8,7 @@ func zzMkTx(nin, nout, maxScript int) *wire.MsgTx {
 	tx := &wire.MsgTx{Version: vI32("version"), LockTime: vU32("locktime")}
 	for i := 0; i < nin; i++ {
 		in := &wire.TxIn{Sequence: vU32("seq")}
-		copy(in.PreviousOutPoint.Hash[:], vBytes(fmt.Sprintf("hash%d", i), 32))
+		copy(in.PreviousOutPoint.Hash[:], vBytes(zzName("hash", i), 32))
 		in.PreviousOutPoint.Index = vU32("index")
 		tx.TxIn = append(tx.TxIn, in)
 	}
@@ -18,7 +16,7 @@ func zzMkTx(nin, nout, maxScript int) *wire.MsgTx {
 		out := &wire.TxOut{Value: vI64("value")}
 		n := vCase("scriptlen", 0, maxScript)
 		if n > 0 {
-			out.PkScript = vBytes(fmt.Sprintf("script%d", i), n)
+			out.PkScript = vBytes(zzName("script", i), n)
 		}
 		tx.TxOut = append(tx.TxOut, out)
 	}
@@ -142,4 +140,8 @@ func ZZ_C18_sort() {
 		vAssert("inplace-out-contents", zzOutEq(origOut[i], &outCopy[i]))
 	}
 	vReach("end")
+}
+
+func zzName(prefix string, i int) string {
+	return prefix + string(rune('0'+i))
 }
